@@ -422,8 +422,36 @@ static uint64_t do_tags(const uint64_t h)
 
 /* --- same-instant, equal-priority waiters on one resource: the order of service is recorded --- */
 
-struct tiectx { struct cmb_resource *res; uint64_t acc; };
+struct tiectx { struct cmb_resource *res; struct cmb_resourcepool *pool; uint64_t acc; };
 struct tiearg { struct tiectx *tc; unsigned id; };
+
+/* equal-priority holders of one pool unit each: which of them a preemption robs is recorded */
+static void *tie_holder_proc(struct cmb_process *me, void *vctx)
+{
+    cmb_unused(me);
+    const struct tiearg *a = vctx;
+    if (cmb_resourcepool_acquire(a->tc->pool, 1u) == CMB_PROCESS_SUCCESS) {
+        if (cmb_process_hold(100.0) == CMB_PROCESS_PREEMPTED) {
+            ACC(a->tc->acc, 1000u + a->id);
+        }
+        else if (cmb_resourcepool_held_by_process(a->tc->pool, me) > 0u) {
+            cmb_resourcepool_release(a->tc->pool, 1u);
+        }
+    }
+    return NULL;
+}
+
+static void *tie_robber_proc(struct cmb_process *me, void *vctx)
+{
+    cmb_unused(me);
+    const struct tiearg *a = vctx;
+    (void)cmb_process_hold(50.0);
+    if (cmb_resourcepool_preempt(a->tc->pool, 1u) == CMB_PROCESS_SUCCESS) {
+        (void)cmb_process_hold(1.0);
+        cmb_resourcepool_release(a->tc->pool, 1u);
+    }
+    return NULL;
+}
 
 static void *tie_proc(struct cmb_process *me, void *vctx)
 {
@@ -444,17 +472,26 @@ static uint64_t do_ties(const uint64_t h)
     cmb_logger_flags_off(CMB_LOGGER_INFO | CMB_LOGGER_WARNING);
     cmb_random_initialize(h);
     cmb_event_queue_initialize(0.0);
-    struct tiectx tc = { cmb_resource_create(), h };
+    struct tiectx tc = { cmb_resource_create(), cmb_resourcepool_create(), h };
     cmb_resource_initialize(tc.res, "Shared");
-    struct cmb_process *p[8];
-    struct tiearg a[8];
+    cmb_resourcepool_initialize(tc.pool, "Pool", m);
+    struct cmb_process *p[8], *q[8], *robber;
+    struct tiearg a[8], ra;
     for (unsigned k = 0; k < m; k++) {
         a[k].tc = &tc;
         a[k].id = k;
         p[k] = cmb_process_create();
         cmb_process_initialize(p[k], "Tie", tie_proc, &a[k], 0);
         cmb_process_start(p[k]);
+        q[k] = cmb_process_create();
+        cmb_process_initialize(q[k], "Holder", tie_holder_proc, &a[k], 0);
+        cmb_process_start(q[k]);
     }
+    ra.tc = &tc;
+    ra.id = 99u;
+    robber = cmb_process_create();
+    cmb_process_initialize(robber, "Robber", tie_robber_proc, &ra, 5);
+    cmb_process_start(robber);
     cmb_event_queue_execute();
     uint64_t d = tc.acc;
     ACC(d, dbits(cmb_time()));
@@ -462,7 +499,12 @@ static uint64_t do_ties(const uint64_t h)
     for (unsigned k = 0; k < m; k++) {
         cmb_process_terminate(p[k]);
         cmb_process_destroy(p[k]);
+        cmb_process_terminate(q[k]);
+        cmb_process_destroy(q[k]);
     }
+    cmb_process_terminate(robber);
+    cmb_process_destroy(robber);
+    cmb_resourcepool_destroy(tc.pool);
     cmb_resource_destroy(tc.res);
     cmb_random_terminate();
     return d;
